@@ -278,7 +278,7 @@ pub fn parse_key(k: KeyTy, s: &str) -> Option<String> {
     // Display, which is how the dump keys a map.
     match k {
         KeyTy::Str => Some(s.to_string()),
-        KeyTy::U8 => s.parse::<u8>().ok().map(|x| x.to_string()),
+        KeyTy::U8 | KeyTy::Gen => s.parse::<u8>().ok().map(|x| x.to_string()),
         KeyTy::I32 => s.parse::<i32>().ok().map(|x| x.to_string()),
         KeyTy::Bool => s.parse::<bool>().ok().map(|x| x.to_string()),
         KeyTy::Char => s.parse::<char>().ok().map(|x| x.to_string()),
@@ -563,7 +563,7 @@ impl<'a> Ctx<'a> {
                             let n = conv_in(&x);
                             let (name, add) = if by_ref { ("from_ref", FROM_REF) } else { ("from_inc", FROM_INC) };
                             self.call(UserCall::Conv { fn_name: name, arg: n as u8, ok: true });
-                            Some(Doc::Int(n + add as u64))
+                            Some(Doc::Int(if f.conv_same_decl { (n + add as u64) % 256 } else { n + add as u64 }))
                         }
                         Conv::TryFrom { by_ref } => {
                             let n = conv_in(&x);
@@ -571,7 +571,7 @@ impl<'a> Ctx<'a> {
                             let good = n % 2 == 0;
                             self.call(UserCall::Conv { fn_name: name, arg: n as u8, ok: good });
                             if good {
-                                Some(Doc::Int(n + add as u64))
+                                Some(Doc::Int(if f.conv_same_decl { (n + add as u64) % 256 } else { n + add as u64 }))
                             } else {
                                 self.report(Sig::Foreign {
                                     loc: kloc.clone(),
